@@ -288,6 +288,11 @@ def run_case(case, ctx):
 
     w1, w2 = seeds(False), seeds(True)
     a, b = float(rng.uniform(-2, 2)), float(rng.uniform(-2, 2))
+    if rng.random() < 0.35:
+        # linear means linear at every magnitude: a seed of 1e-10 (a response in nm, an objective weight) is not "numerically zero"
+        k = 10.0 ** rng.uniform(-12, 5)
+        a, b = a * k, b * k
+        ctx.count("linearity_scaled_coefficients")
     g1 = backprop([copy.deepcopy(w) for w in w1])
     g2 = backprop([copy.deepcopy(w) for w in w2])
     w12 = []
